@@ -29,6 +29,7 @@ RULE = ("FTP level: random command sequences (length <= 20) over a small path un
         "itself are not generated.  distinct = distinct (command, reply) transcripts; non-trivial = at least one command "
         "failed and at least one succeeded.")
 RULE += ("  " + 'Also (round 8): REST n + STOR / APPE followed by plain APPEs (append means the end of the file on every back end).')
+RULE += ("  " + 'Also (round 11): a directory of 301 entries on all three back ends; failures that a file system tells apart by error number (ENOENT / ENOTDIR) and memory does not: same reply class everywhere.')
 ASSUMPTIONS = ["file-system back ends run in a fresh temp dir per case (removed afterwards)",
                "directory sizes, nlink, modes and times are not compared (they differ by construction)"]
 REQUIRED_MONITORS = ["steps_compared", "api_ops_compared"]
